@@ -196,8 +196,10 @@ int fam_kernels(const vh_args_t *a) {
   for (int t = 0; t < 200; t++, idx++) if (VH_SHARD(a, idx)) { vh_case_seed(a, idx); swap_case(1, 0); }
   for (int t = 0; t < (a->tier ? 3000 : 600); t++, idx++) if (VH_SHARD(a, idx)) { vh_case_seed(a, idx); spread_case(); }
   for (int ia = 0; ia <= 64; ia++) for (int ib = 0; ib <= 64; ib++, idx++) if (VH_SHARD(a, idx)) { vh_case_seed(a, idx); lsb_case(ia, ib); }
+  /* these two write through caller-supplied buffers: each case in its own process, so that an overrun is one recorded crash */
+  vh_nofork = getenv("VH_NOFORK") != NULL;
   for (int t = 0; t < 60; t++, idx++) if (VH_SHARD(a, idx)) { vh_case_seed(a, idx); VH_CASE(idx) mzp_case(); VH_CASE_END }
   for (int t = 0; t < 140; t++, idx++)
-    if (VH_SHARD(a, idx)) { vh_case_seed(a, idx); word_to_str_case(t % 2, t < 128 ? (word)1 << (t / 2) : (t < 132 ? 0 : (t < 136 ? ~(word)0 : vh_rand()))); }
+    if (VH_SHARD(a, idx)) { vh_case_seed(a, idx); VH_CASE(idx) word_to_str_case(t % 2, t < 128 ? (word)1 << (t / 2) : (t < 132 ? 0 : (t < 136 ? ~(word)0 : vh_rand()))); VH_CASE_END }
   return 0;
 }
